@@ -233,7 +233,17 @@ def judge_play(ctx, mid, model, pattern, oversleep, meta_messages, seed):
     orig = mf.time
     mf.time = clock
     try:
-        gen = mid.play(meta_messages=meta_messages, now=clock.time)
+        if rng.random() < 0.3:
+            # the clock is a method of an object nobody else holds (a view on a stream position, made for this call)
+            class View:
+                def __init__(self, c):
+                    self.c = c
+
+                def now(self):
+                    return self.c.now
+            gen = mid.play(meta_messages=meta_messages, now=View(clock).now)
+        else:
+            gen = mid.play(meta_messages=meta_messages, now=clock.time)
         # the player may be created long before it is started: playback begins at the first next()
         late = rng.choice((0, 0, 0, 3, 1000))
         clock.now += late if isinstance(clock.now, int) else float(late)
@@ -507,8 +517,20 @@ def unit_cases(ctx, k):
         tempo = rng.choice((1, 500000, 16777215, rng.randrange(1, 2 ** 24)))
         case = lambda: {'kind': 'unit', 'tick': t, 'tpb': tpb, 'tempo': tempo}  # noqa: E731
         try:
-            s = tick2second(t, tpb, tempo)
-            back = second2tick(s, tpb, tempo)
+            # the ways to spell the call: by position, by keyword, mixed
+            style = j % 4
+            if style == 0:
+                s = tick2second(t, tpb, tempo)
+                back = second2tick(s, tpb, tempo)
+            elif style == 1:
+                s = tick2second(t, tpb, tempo=tempo)
+                back = second2tick(s, tpb, tempo)
+            elif style == 2:
+                s = tick2second(tick=t, ticks_per_beat=tpb, tempo=tempo)
+                back = second2tick(second=s, ticks_per_beat=tpb, tempo=tempo)
+            else:
+                s = tick2second(t, ticks_per_beat=tpb, tempo=tempo)
+                back = second2tick(s, tpb, tempo=tempo)
             ctx.check('second2tick(tick2second(t)) == t', back == t and type(back) is int, 'units-inverse',
                       case, lambda: {'seconds': s, 'back': back})
             ctx.check('tick2second == t*tempo/(1e6*tpb)', close(s, Fraction(t * tempo, 10 ** 6 * tpb), 1e-12),
